@@ -65,6 +65,19 @@ def run(res):
     fe_bad = rustc_front_end(res)
     if not fe_bad:
         res.discharged.append(name_fe)
+    # `never accepts input it did not fully consume`, under the real compiler: malformed patterns written so that the assertion is
+    # well typed and true if the offending tokens are ignored (shared with C15) must not compile
+    import prop_c15
+    name_m = "direct:input with tokens the grammar has no place for is rejected under the real compiler (typed programs)"
+    res.obligations.append(name_m)
+    acc, n_typed = prop_c15.rustc_accepted_malformed("c13m")
+    for pgm in acc[:2]:
+        fe_bad += 1
+        res.violation("failing-input", "under rustc the macro accepts input it did not fully consume: `assert_struct!(%s, %s)` compiles" % (pgm[1], pgm[2]),
+                      {"program": prop_c15.slice_program(*pgm), "rustc_program": True})
+    res.streams["unconsumed-input(rustc)"] = {"programs": n_typed, "compiled": len(acc)}
+    if not acc:
+        res.discharged.append(name_m)
     try:
         recs = parsestage.run_stage(res, res.tier, res.seed)
     except vlib.CheckError as e:
@@ -318,6 +331,12 @@ def rustc_front_end(res):
 
 def replay_file(res, path, corpus=False):
     v = json.load(open(path))
+    if v.get("rustc_program"):
+        import e2e
+        o = e2e.compile_many([v["program"]], run=False, tag="c13r")[0]
+        e2e.cleanup("c13r")
+        print("under rustc the program", "compiles (violation)" if o["compiled"] else "is rejected: property holds on this input")
+        return 1 if o["compiled"] else 0
     inv = v.get("invocation") or v.get("first_disagreement", {}).get("invocation")
     if inv is None:
         print("replay file has no invocation; it names a broken obligation:", v.get("what"))
